@@ -442,7 +442,7 @@ func (s *MergeExp) BindingPath(bindPath string,
 		if fork == nil {
 			fork = make(map[*CallStm]CollectionIndex)
 		}
-		for i := range keys {
+		for _, i := range sortedKeys(keys) {
 			fork[s.GetCall()] = mapKeyIndex(i)
 			iv, err := v.BindingPath("", fork, lookup)
 			if err != nil {
